@@ -21,12 +21,12 @@ variable {L K : Type} [DecidableEq L] [LabelOrd L] [Field K] [DecidableEq K]
 def zs (bs : List (Branch L K)) : List (Branch L K) :=
   bs.map fun b => { b with e := b.e.zeroSources }
 
-theorem zeroSources_branches (N : Net L K) : N.zeroSources.branches = zs N.branches := rfl
+theorem port_zeroSources_branches (N : Net L K) : N.zeroSources.branches = zs N.branches := rfl
 
 theorem zeroSources_idem (e : Elem K) : e.zeroSources.zeroSources = e.zeroSources := by
   cases e <;> rfl
 
-theorem zs_idem (bs : List (Branch L K)) : zs (zs bs) = zs bs := by
+theorem port_zs_idem (bs : List (Branch L K)) : zs (zs bs) = zs bs := by
   simp [zs, List.map_map, Function.comp_def, zeroSources_idem]
 
 /-- current `J` injected into `a` and drawn from `b` -/
@@ -156,7 +156,7 @@ variable {L K : Type} [DecidableEq L] [LabelOrd L] [Field K] [DecidableEq K]
 
 /-! ### the probe network -/
 
-theorem zs_ids (bs : List (Branch L K)) : (zs bs).map (·.id) = bs.map (·.id) := by
+theorem port_zs_ids (bs : List (Branch L K)) : (zs bs).map (·.id) = bs.map (·.id) := by
   simp [zs, List.map_map, Function.comp_def]
 
 theorem probe_iff (N : Net L K) (pid : String) (a b : L) (J : K) (R : Report L K) :
@@ -216,7 +216,7 @@ theorem probe_of_eqsInj (N : Net L K) (pid : String) (hp : pid ∉ N.ids) (a b :
     (R : Report L K) (h : EqsInj (zs N.branches) N.zero R (injAB a b J)) :
     CircuitEqs (probeNet N pid a b J) (R.setProbe pid (R.pot b - R.pot a) J) := by
   rw [probe_iff]
-  have hp' : pid ∉ (zs N.branches).map (·.id) := by rw [zs_ids]; exact hp
+  have hp' : pid ∉ (zs N.branches).map (·.id) := by rw [port_zs_ids]; exact hp
   refine ⟨?_, by simp [Report.setProbe], by simp [Report.setProbe]⟩
   have : (R.setProbe pid (R.pot b - R.pot a) J).i pid = J := by simp [Report.setProbe]
   rw [this]
@@ -229,7 +229,7 @@ theorem probeNet_zeroSources (N : Net L K) (pid : String) (a b : L) (J : K) :
     simp [probeNet, Net.zeroSources, zs, probeBranch, Elem.zeroSources]
   have h2 : (probeNet N pid a b (0 : K)).branches = zs N.branches ++ [probeBranch pid a b 0] := rfl
   have h3 : (probeNet N pid a b J).zeroSources.zero = (probeNet N pid a b (0 : K)).zero := rfl
-  rw [zs_idem] at h1
+  rw [port_zs_idem] at h1
   cases hA : (probeNet N pid a b J).zeroSources with
   | mk br z =>
     cases hB : probeNet N pid a b (0 : K) with
@@ -277,18 +277,18 @@ theorem eqsInj_zero (bs : List (Branch L K)) (z : L) :
     simp [Elem.physCurrent, Report.zeroRep]
 
 /-- potentials shifted by a constant: a change of the reference node -/
-def Report.shift (R : Report L K) (c : K) : Report L K where
+def Report.portShift (R : Report L K) (c : K) : Report L K where
   pot := fun n => R.pot n - c
   v := R.v
   i := R.i
 
 theorem eqsInj_shift {bs : List (Branch L K)} {z : L} {R : Report L K} {inj : L → K} (g : L)
-    (h : EqsInj bs z R inj) : EqsInj bs g (R.shift (R.pot g)) inj := by
-  refine ⟨by simp [Report.shift], ?_, h.law, h.kcl⟩
+    (h : EqsInj bs z R inj) : EqsInj bs g (R.portShift (R.pot g)) inj := by
+  refine ⟨by simp [Report.portShift], ?_, h.law, h.kcl⟩
   intro b hb
   have := h.volt b hb
   unfold voltResidual at *
-  simp only [Report.shift]
+  simp only [Report.portShift]
   linear_combination this
 
 end CC
